@@ -7,6 +7,7 @@ import (
 	"fmt"
 	"math/big"
 	"net/http/httptest"
+	"os"
 	"sort"
 	"strings"
 	"sync"
@@ -27,6 +28,9 @@ func TestMain(m *testing.M) { ev.Main(m, rec) }
 type Case struct {
 	Body string `json:"body"`
 	Kind string `json:"kind,omitempty"`
+	// Inspect: the translator runs with its request inspector switched on
+	// (translators.anthropic.inspector.enabled), which must not change what is sent upstream
+	Inspect bool `json:"inspect,omitempty"`
 }
 
 var (
@@ -39,6 +43,38 @@ func translator() *anthropic.Translator {
 		tr = anthropic.NewTranslator(hx.QuietLogger(), config.AnthropicTranslatorConfig{Enabled: true, MaxMessageSize: 10 << 20})
 	})
 	return tr
+}
+
+var (
+	trInspOnce sync.Once
+	trInsp     *anthropic.Translator
+	inspDir    string
+	inspMu     sync.Mutex
+)
+
+// inspectedTranslator has the request inspector enabled; it writes what it sees below a scratch
+// directory that is emptied after every case.
+func inspectedTranslator() *anthropic.Translator {
+	trInspOnce.Do(func() {
+		inspDir, _ = os.MkdirTemp("", "verif-c12-inspector-")
+		trInsp = anthropic.NewTranslator(hx.QuietLogger(), config.AnthropicTranslatorConfig{Enabled: true, MaxMessageSize: 10 << 20,
+			Inspector: config.InspectorConfig{Enabled: true, OutputDir: inspDir, SessionHeader: "X-Session-ID"}})
+	})
+	return trInsp
+}
+
+func transformInspected(body string) ([]byte, error) {
+	inspMu.Lock()
+	defer inspMu.Unlock()
+	tr := inspectedTranslator()
+	defer os.RemoveAll(inspDir)
+	r := httptest.NewRequest("POST", "/olla/anthropic/v1/messages", strings.NewReader(body))
+	r.Header.Set("Content-Type", "application/json")
+	res, err := tr.TransformRequest(context.Background(), r)
+	if err != nil {
+		return nil, err
+	}
+	return json.Marshal(res.OpenAIRequest)
 }
 
 // transform pushes body through the exported TransformRequest and serialises the OpenAI
@@ -408,6 +444,13 @@ func judgeValid(c Case, via string, upstream []byte, rejectErr string) []ev.Viol
 
 func runValid(c Case) []ev.Violation {
 	rec.Eval(1)
+	if c.Inspect {
+		up, err := transformInspected(c.Body)
+		if err != nil {
+			return judgeValid(c, "transform+inspector", nil, err.Error())
+		}
+		return judgeValid(c, "transform+inspector", up, "")
+	}
 	up, err := transform(c.Body)
 	if err != nil {
 		return judgeValid(c, "transform", nil, err.Error())
